@@ -53,7 +53,11 @@ func zzH_C01_api() {
 	if zzTier() >= 1 {
 		pool, pool3, maxO = len(zzC01Pool), 8, 16
 	}
-	k := zzChoose(3) + 1
+	maxK := 2 // three and more patterns: quick tier leaves them to the tree-level harnesses (harness/origins/c01.go)
+	if zzTier() >= 1 {
+		maxK = 3
+	}
+	k := zzChoose(maxK) + 1
 	pats := make([]zzPat, k)
 	for i := range pats {
 		if k == 3 {
